@@ -15,7 +15,7 @@ CHECKS = {
   text='Reference machine spec/KfacRef.tla; TLC-generated behaviours (strict discipline, multi-step, F != I, accumulation, eval) are executed by the real GPTNeoXKFACPreconditioner on simdist with Megatron-style column-/row-parallel layers over (D, M) in {(1,2),(2,1),(2,2),(1,3)} (thorough: up to (4,2)), bias on/off per layer kind, clipping active/inactive, 3 bucket capacity classes, symmetry; terms are interpreted on the UNSHARDED layers over the union batch: assembled shards of every rank vs the unsharded gradient (clip included), factors on the inverse worker vs unsharded factors, bit-identical data-parallel replicas / replicated parameters / schedules; Comm.tla invariants monitored at run time and model-checked by TLC over extracted programs.',
   ref='DESIGN.md 4.6, 5 (C11)',
   note='DeepSpeed and Megatron are replaced by harness stubs (topology grid, PipelineModule, the two layer classes); pipeline stages = 1 for value-level runs.',
-  technique='TLA+ specs (KfacRef.tla reference, Comm.tla) + TLC; reference behaviours executed on a simulated 2-D world against interpreted unsharded terms'),
+  technique='TLA+ specs (KfacRef.tla reference, GptDist.tla protocol derivation, Comm.tla) + TLC; reference behaviours executed on a simulated 2-D world against interpreted unsharded terms; recorded collective sequences trace-checked against GptDist.tla'),
  'C12': dict(
   category='model_checking',
   text='spec/GptAssign.tla (row-major pipe x data x model coordinates, per-stage greedy, inverse worker, factor worker, gradient source, gradient workers, new_group calls) with the clauses of C12 as invariants model-checked by TLC over every topology with P<=2, D,M<=3, world<=12 (thorough P<=3, D,M<=4, world<=16) and all cost dictionaries over {0,1,2} with <=2 (3) layers per stage; every TLC state replayed: one real GPTNeoXAssignment per rank with the topology stub, all public queries and the new_group call sequence compared.',
@@ -27,7 +27,7 @@ CHECKS = {
   text='Behaviours of spec/KfacRef.tla over {Train, Step, Save, Load} (every step boundary after the first factor update as checkpoint position, with/without factors, compute_inverses on/off) executed by the real GPTNeoXKFACPreconditioner on simdist for (D, M) in {(1,1),(2,1),(1,2),(2,2)} (thorough up to (4,1),(3,2),(2,3)), in-memory and directory mode: every rank\'s saved state holds every layer\'s factors exactly as on its inverse worker / one file per layer; restored factors, second-order data on the inverse worker, every later step equal to the term; Comm.tla invariants at run time + TLC over extracted programs.',
   ref='DESIGN.md 4.6, 5 (C18)',
   note='Stubs as C11; saving requires existing factors (the code asserts it); directory-mode loads are preceded by a harness barrier (restart).',
-  technique='TLA+ specs (KfacRef.tla, Comm.tla) + TLC; checkpoint behaviours executed on a simulated world'),
+  technique='TLA+ specs (KfacRef.tla, GptDist.tla save/load clauses, Comm.tla) + TLC; checkpoint behaviours executed on a simulated world; recorded collective sequences trace-checked against GptDist.tla'),
  'C14': dict(
   category='model_checking',
   text='spec/Triu.tla: PackOrder(n), closed-form position, bijection onto the upper triangle and Unpack(Pack(M)) = M for symmetric M with position-revealing entries, model-checked by TLC for every n <= 24 (40); get_triu of a position-revealing matrix must list exactly PackOrder(n) (n up to 128 (512) with the same definition), fill_triu(get_triu(M)) == M bit-wise for 4 floating dtypes and contiguous / strided / transposed inputs; symmetric allreduce, broadcast and allreduce_bucketed on simdist equal the dense ones and transfer n(n+1)/2 elements; non-square / non-2-D tensors raise NonSquareTensorError with an empty event trace.',
